@@ -14,7 +14,7 @@ CHECKS = {
               "recorded random histories of the real class (arbitrary byte keys, values around 2^32-1 and 2^40, widths "
               "1..64, up to 4 sketches) are validated step by step against the same specification with ghost truth."),
         note="trusted: TLC, CommunityModules, numpy; key placement observed on probe sketches; exhaustive only for the named small instances",
-        technique="TLA+ spec + TLC exhaustive check; edge replay spec->code; trace validation code->spec (BigNum)"),
+        technique="TLA+ spec + TLC exhaustive check; edge replay spec->code; trace validation code->spec (exact big naturals)"),
     "C03": dict(
         category="model_checking", design_ref="DESIGN.md 4.3",
         text=("TLC checks NoOverCell/NoOver/NoGhost on every history of small HeavyHitters instances whose key universe "
